@@ -128,6 +128,14 @@ def prophy_enforcement(ctx, L):
                 if typename in seen or typename not in self.typedecls or not isinstance(self.typedecls[typename], model.Typedef):
                     return False
                 return self._is_type_sizer_compatible(self.typedecls[typename].type_name, seen + (typename,))
+            """, """
+                if typename in {type_ + width for type_ in 'ui' for width in ['8', '16', '32', '64']}:
+                    return True
+                if typename in seen:
+                    return False
+                if not isinstance(self.typedecls.get(typename), model.Typedef):      # (None, the result for an unknown name, is no Typedef)
+                    return False
+                return self._is_type_sizer_compatible(self.typedecls.get(typename).type_name, seen + (typename,))
             """, params=['self', 'typename', 'seen']), 'F8.enforcement', 'prophy|D6-integer-set', sc.site(),
             'a type is sizer-compatible iff it is one of the eight integer builtins or a typedef chain ending in one (float, double, '
             'byte, enums and composites are not)', s)
